@@ -61,6 +61,7 @@ typedef struct ref_edit_s {
   ref_del_t del[VP_REF_MAX];
   ref_nf_t nf[VP_REF_MAX];
   int overflow; /* more entries than VP_REF_MAX: harness bound too small */
+  uint32_t wide; /* encoder hint: fields (by index, see ref_encode) of non-constant varint length */
 } ref_edit_t;
 
 static void
@@ -72,75 +73,133 @@ ref_edit_init(ref_edit_t *r) {
   r->log = r->prev = r->next = r->seq = 0;
   r->ncp = r->ndel = r->nnf = 0;
   r->overflow = 0;
+  r->wide = 0;
 }
 
 /*
  * Encoder
+ *
+ * Written so that CBMC's symbolic executor keeps every byte in front of a
+ * symbolic-length field at a concrete array index: the write position is
+ * tracked as a concrete lower bound `lo` plus a bounded symbolic excess
+ * (pos - lo <= slack), and a byte at a symbolic position is stored through
+ * guarded writes to the concrete indices lo .. lo + slack only.  (A plain
+ * out[pos] = b with symbolic pos turns every element of the array into a
+ * symbolic expression, and a decoder reading the record then fans out over
+ * all eight tags at every field.)  A field whose bit is set in r->wide is
+ * treated as having any varint length; all others must have a length that
+ * folds to a constant (concrete value).
  */
 
-static size_t
-ref_put_varint(uint8_t *out, size_t pos, uint64_t x) {
-  while (x >= 128) {
-    out[pos++] = (uint8_t)((x & 127) | 128);
-    x >>= 7;
+typedef struct ref_out_s {
+  uint8_t *out;
+  size_t pos;   /* actual position (symbolic behind a wide field) */
+  size_t lo;    /* concrete lower bound of pos */
+  size_t slack; /* concrete bound of pos - lo */
+} ref_out_t;
+
+static void
+ref_put_byte(ref_out_t *w, size_t off, int enable, uint8_t b) {
+  /* out[pos + off] = b, if enable */
+  size_t d;
+  for (d = 0; d <= w->slack; d++) {
+    if (enable && w->pos == w->lo + d)
+      w->out[w->lo + d + off] = b;
   }
-  out[pos++] = (uint8_t)x;
-  return pos;
 }
 
 static size_t
-ref_put_bytes(uint8_t *out, size_t pos, const uint8_t *p, size_t n) {
-  size_t i;
-  pos = ref_put_varint(out, pos, n);
-  for (i = 0; i < n; i++)
-    out[pos++] = p[i];
-  return pos;
+ref_varint_length(uint64_t x) {
+  size_t n = 1;
+  while (x >= 128) {
+    x >>= 7;
+    n++;
+  }
+  return n;
 }
+
+static void
+ref_put_varint(ref_out_t *w, uint64_t x, int wide, size_t maxlen) {
+  size_t len = ref_varint_length(x);
+  size_t j;
+
+  for (j = 0; j < maxlen; j++) {
+    uint64_t g = (x >> (7 * j)) & 127;
+    ref_put_byte(w, j, j < len, (uint8_t)(j + 1 < len ? (g | 128) : g));
+  }
+
+  w->pos += len;
+
+  if (wide) {
+    w->lo += 1;
+    w->slack += maxlen - 1;
+  } else {
+    w->lo += len; /* folds to a constant for a concrete x */
+  }
+}
+
+static void
+ref_put_bytes(ref_out_t *w, const uint8_t *p, size_t n) {
+  size_t i;
+  ref_put_varint(w, n, 0, 5);
+  for (i = 0; i < n; i++)
+    ref_put_byte(w, i, 1, p[i]);
+  w->pos += n;
+  w->lo += n;
+}
+
+#define VP_WIDE(r, idx) ((int)(((r)->wide >> (idx)) & 1))
 
 /* The deleted-file list of *r must be canonical (ref_canon_del). */
 static size_t
 ref_encode(const ref_edit_t *r, uint8_t *out) {
-  size_t pos = 0, i;
+  ref_out_t w;
+  size_t i;
+
+  w.out = out;
+  w.pos = 0;
+  w.lo = 0;
+  w.slack = 0;
 
   if (r->has_cmp) {
-    pos = ref_put_varint(out, pos, 1);
-    pos = ref_put_bytes(out, pos, r->cmp, r->cmplen);
+    ref_put_varint(&w, 1, 0, 5);
+    ref_put_bytes(&w, r->cmp, r->cmplen);
   }
   if (r->has_log) {
-    pos = ref_put_varint(out, pos, 2);
-    pos = ref_put_varint(out, pos, r->log);
+    ref_put_varint(&w, 2, 0, 5);
+    ref_put_varint(&w, r->log, VP_WIDE(r, 0), 10);
   }
   if (r->has_prev) {
-    pos = ref_put_varint(out, pos, 9);
-    pos = ref_put_varint(out, pos, r->prev);
+    ref_put_varint(&w, 9, 0, 5);
+    ref_put_varint(&w, r->prev, VP_WIDE(r, 1), 10);
   }
   if (r->has_next) {
-    pos = ref_put_varint(out, pos, 3);
-    pos = ref_put_varint(out, pos, r->next);
+    ref_put_varint(&w, 3, 0, 5);
+    ref_put_varint(&w, r->next, VP_WIDE(r, 2), 10);
   }
   if (r->has_seq) {
-    pos = ref_put_varint(out, pos, 4);
-    pos = ref_put_varint(out, pos, r->seq);
+    ref_put_varint(&w, 4, 0, 5);
+    ref_put_varint(&w, r->seq, VP_WIDE(r, 3), 10);
   }
   for (i = 0; i < r->ncp; i++) {
-    pos = ref_put_varint(out, pos, 5);
-    pos = ref_put_varint(out, pos, r->cp[i].level);
-    pos = ref_put_bytes(out, pos, r->cp[i].key, r->cp[i].klen);
+    ref_put_varint(&w, 5, 0, 5);
+    ref_put_varint(&w, r->cp[i].level, VP_WIDE(r, 10 + i), 5);
+    ref_put_bytes(&w, r->cp[i].key, r->cp[i].klen);
   }
   for (i = 0; i < r->ndel; i++) {
-    pos = ref_put_varint(out, pos, 6);
-    pos = ref_put_varint(out, pos, r->del[i].level);
-    pos = ref_put_varint(out, pos, r->del[i].number);
+    ref_put_varint(&w, 6, 0, 5);
+    ref_put_varint(&w, r->del[i].level, VP_WIDE(r, 11 + i), 5);
+    ref_put_varint(&w, r->del[i].number, VP_WIDE(r, 4 + i), 10);
   }
   for (i = 0; i < r->nnf; i++) {
-    pos = ref_put_varint(out, pos, 7);
-    pos = ref_put_varint(out, pos, r->nf[i].level);
-    pos = ref_put_varint(out, pos, r->nf[i].number);
-    pos = ref_put_varint(out, pos, r->nf[i].size);
-    pos = ref_put_bytes(out, pos, r->nf[i].sk, r->nf[i].sklen);
-    pos = ref_put_bytes(out, pos, r->nf[i].lk, r->nf[i].lklen);
+    ref_put_varint(&w, 7, 0, 5);
+    ref_put_varint(&w, r->nf[i].level, VP_WIDE(r, 13 + i), 5);
+    ref_put_varint(&w, r->nf[i].number, VP_WIDE(r, 6 + 2 * i), 10);
+    ref_put_varint(&w, r->nf[i].size, VP_WIDE(r, 7 + 2 * i), 10);
+    ref_put_bytes(&w, r->nf[i].sk, r->nf[i].sklen);
+    ref_put_bytes(&w, r->nf[i].lk, r->nf[i].lklen);
   }
-  return pos;
+  return w.pos;
 }
 
 /*
